@@ -219,6 +219,25 @@ fn main() {
             warm_builtins(prng::mix(&[opts.seed, prng::purpose("warm")]));
             props::c04::run(&opts)
         }
+        "c14-one" => {
+            // debug: run the C14 oracles on a project directory
+            let dir = std::path::PathBuf::from(&args[2]);
+            let mut files = world::Files::new();
+            fn walk(root: &std::path::Path, d: &std::path::Path, out: &mut world::Files) {
+                for e in std::fs::read_dir(d).unwrap().flatten() {
+                    let p = e.path();
+                    if p.is_dir() { walk(root, &p, out); } else if p.extension().is_some_and(|x| x == "gom") {
+                        out.insert(p.strip_prefix(root).unwrap().to_string_lossy().to_string(), std::fs::read(&p).unwrap());
+                    }
+                }
+            }
+            walk(&dir, &dir, &mut files);
+            let sb = world::Sandbox::new("c14one").unwrap();
+            let case = props::c14::Case { name: args[2].clone(), files, predicted: None };
+            let r = props::c14::check_case_debug(&sb, &case);
+            for v in r { println!("{v}"); }
+            0
+        }
         "c09" => {
             println!("VERIF_SEED={}", opts.seed);
             warm_builtins(prng::mix(&[opts.seed, prng::purpose("warm")]));
